@@ -109,6 +109,7 @@ def parseGate (ws : List String) : Option (List Nat × GOp) :=
     | "complete", _, _ => some (auth, .complete)
     | "migrate", [o], [d1, d2] => some (auth, .migrate (d1, d2) o)
     | "upgrade", [o], _ => some (auth, .upgrade o)
+    | "setcap", _, _ => (kvInt? rest "c").map (fun c => (auth, .setCap c))
     | _, _, _ => none
   | _ => none
 
@@ -192,6 +193,7 @@ def parseGName (s : String) : GName :=
   | "complete" => .complete
   | "migrate" => .migrate
   | "upgrade" => .upgrade
+  | "setcap" => .setcap
   | s => .other s
 
 def parseCall (ws : List String) : Call :=
